@@ -267,6 +267,8 @@ type Enc struct {
 	// result-stability monitor checks later that nobody wrote to them
 	k64 []clip.Path64
 	kD  []clip.PathD
+	o64 []clip.Paths64 // outer slices of returned path lists
+	oD  []clip.PathsD
 }
 
 func (e *Enc) s(x string) *Enc { e.b = append(e.b, x...); return e }
@@ -295,7 +297,7 @@ func (e *Enc) boolean(tag string, v bool) *Enc {
 	return e.s("=false ")
 }
 func (e *Enc) path64(p clip.Path64) *Enc {
-	if len(p) > 0 {
+	if cap(p) > 0 {
 		e.k64 = append(e.k64, p)
 	}
 	e.s("[")
@@ -308,7 +310,7 @@ func (e *Enc) path64(p clip.Path64) *Enc {
 	return e.s("]")
 }
 func (e *Enc) pathD(p clip.PathD) *Enc {
-	if len(p) > 0 {
+	if cap(p) > 0 {
 		e.kD = append(e.kD, p)
 	}
 	e.s("[")
@@ -322,6 +324,9 @@ func (e *Enc) pathD(p clip.PathD) *Enc {
 }
 func (e *Enc) paths64(tag string, p clip.Paths64) *Enc {
 	// a nil and an empty list are the same value to a caller
+	if cap(p) > len(p) {
+		e.o64 = append(e.o64, p)
+	}
 	e.s(tag).s("={")
 	for _, path := range p {
 		e.path64(path)
@@ -330,6 +335,9 @@ func (e *Enc) paths64(tag string, p clip.Paths64) *Enc {
 }
 func (e *Enc) pathsD(tag string, p clip.PathsD) *Enc {
 	// a nil and an empty list are the same value to a caller
+	if cap(p) > len(p) {
+		e.oD = append(e.oD, p)
+	}
 	e.s(tag).s("={")
 	for _, path := range p {
 		e.pathD(path)
@@ -382,6 +390,8 @@ type Outcome struct {
 	hasG  bool // geometry fields are set
 	k64   []clip.Path64
 	kD    []clip.PathD
+	ko64  []clip.Paths64
+	koD   []clip.PathsD
 }
 
 func (o *Outcome) key() string {
@@ -433,7 +443,7 @@ func protect(budget int64, f func(e *Enc, out *Outcome)) (out Outcome) {
 			out.Panic = panicText(r)
 		}
 		out.Enc = e.String()
-		out.k64, out.kD = e.k64, e.kD
+		out.k64, out.kD, out.ko64, out.koD = e.k64, e.kD, e.o64, e.oD
 	}()
 	f(&e, &out)
 	return
